@@ -30,7 +30,7 @@ Section Parse.
     destruct (parse_loop _ _ M f [Nt (start G)] w []) as [s|e s| | |] eqn:EL; try discriminate.
     intros H; inversion H; subst ps.
     destruct (parse_loop_sound G M (built_table_sound G O M false HO EB) f _ _ _ _ [] EL) as [ps [E D]].
-    rewrite app_nil_r in E. subst s. rewrite rev_involutive. simpl in D.
+    rewrite app_nil_r in E. subst s. rewrite <- rev_alt, rev_involutive. simpl in D.
     split; [exact D|]. apply (lm_derives_derives G ps). exact D.
   Qed.
 
